@@ -456,3 +456,79 @@ func propCrash(t *vt.T) {
 func vtCount(t *vt.T, name string) { t.Count(name, 1) }
 
 func TestC06Crash(t *testing.T) { vt.CheckBubble(t, "C06", propCrash) }
+
+// ---------------------------------------------------------------------------
+// C15, recovery clause: while a staging area is recovering, it is not ready
+// (requests are answered 'unavailable'), at every step of the recovery.
+
+type holder struct {
+	release chan struct{}
+}
+
+func propRecoveryNotReady(t *vt.T) {
+	fileutil.VerifHook = pz.hook
+	psize := t.IntRange("partSize", 1, 4)
+	tmp := &Scenario{t: t, psize: psize}
+	cs := genCrashScript(t, tmp)
+	// first life: stop somewhere so that complete / partial / validated files are left behind
+	pz.arm(1, 0)
+	dry := newCrashRun(t, cs, psize)
+	dry.play()
+	dry.w.Settle()
+	_, n, labels, _ := pz.state()
+	pz.arm(0, 0)
+	dry.s.Close()
+	k := t.IntRange("crashAt", 1, n)
+	// prefer crash points that leave a complete but unvalidated file behind
+	var cand []int
+	for i, l := range labels {
+		if strings.HasPrefix(l, "stage.process:") || strings.HasPrefix(l, "fileutil.ReadableMD5") || strings.HasPrefix(l, "fileutil.FileMD5") {
+			cand = append(cand, i+1)
+		}
+	}
+	if len(cand) > 0 && t.Weighted("crashWhileValidating", 1, 3) == 1 {
+		k = cand[t.Pick("crashCand", len(cand))]
+	}
+	pz.arm(2, k)
+	r := newCrashRun(t, cs, psize)
+	if !r.play() {
+		synctest.Wait()
+		pz.freeze()
+	}
+	r.crashImage()
+	defer r.s.Close()
+	// second life: recovery, stopped at a drawn step
+	pz.arm(1, 0)
+	r.w.boot(false)
+	// count the steps of this recovery on a copy first? the recovery is cheap: run it held at step j
+	j := t.IntRange("holdRecoveryAt", 1, 4)
+	pz.arm(2, j) // parks the recovering goroutine at its j-th durable step
+	finished := do(func() { r.w.st.Recover() })
+	frozen, reached, _, hit := pz.state()
+	if frozen && !finished {
+		t.Class("request-during-recovery")
+		t.NonTrivial()
+		t.Note("recovery held at step %d (%s)", reached, hit)
+		if r.w.st.Ready() {
+			t.Violation("ready-while-recovering", "the staging area reports ready (requests would be processed) while its recovery is stopped at step %d (%s): files found complete are still being validated", reached, hit)
+		}
+	} else if frozen && finished {
+		// Recover has returned and a later step is pending. Delivering a
+		// validated file (log, move) is normal operation of a ready staging
+		// area; classifying and validating what was found is recovery.
+		if strings.HasPrefix(hit, "stage.Recover:") || strings.HasPrefix(hit, "stage.process:") || strings.HasPrefix(hit, "fileutil.ReadableMD5") || strings.HasPrefix(hit, "fileutil.FileMD5") {
+			t.Class("request-during-recovery")
+			t.NonTrivial()
+			t.Violation("ready-while-recovering", "Recover() returned (staging area ready) while the validation of a file found complete (%s) had not been carried out yet", hit)
+		}
+		t.Class("held-after-recovery-in-delivery")
+	} else {
+		t.Class("recovery-had-fewer-steps")
+		if !r.w.st.Ready() {
+			t.Violation("not-ready-after-recovery", "recovery finished but the staging area is still not ready")
+		}
+	}
+	pz.arm(0, 0)
+}
+
+func TestC15Recovery(t *testing.T) { vt.CheckBubble(t, "C15", propRecoveryNotReady) }
